@@ -154,6 +154,29 @@ func (f *Frame) execCall(instr *ssa.Call, cc *ssa.CallCommon, reach string, st *
 			return
 		}
 	}
+	if FuncName(callee) == "sync.(*Once).Do" && len(cc.Args) == 2 && f.depth < maxInlineDepth {
+		// once.Do(f): f runs here (the first call) or not at all (a later call)
+		var fn *ssa.Function
+		var fbind []string
+		switch cb := cc.Args[1].(type) {
+		case *ssa.MakeClosure:
+			fn = cb.Fn.(*ssa.Function)
+			for _, b := range cb.Bindings {
+				fbind = append(fbind, f.val(b))
+			}
+		case *ssa.Function:
+			fn = cb
+		}
+		if fn != nil && fn.Blocks != nil {
+			f.eng.note("sync.Once.Do(f) runs f in this call or not at all")
+			first := f.ctx.Fresh("once_first", "Bool")
+			before := st.clone()
+			f.inlineCall(fn, nil, fbind, And(reach, first), st)
+			merged := f.mergeStates([]inEdge{{nil, And(reach, first), st}, {nil, And(reach, Not(first)), before}})
+			*st = *merged
+			return
+		}
+	}
 	f.callSiteAsserts(instr, cc, FuncName(callee), args, reach, st)
 	fc := f.eng.contractFor(callee)
 	hint := callee.Name()
